@@ -6,7 +6,8 @@ CONSTANTS
   MaxLen = 3
   MaxTime = 5
   RawOps = TRUE
-  IOAmts <- IO2
+  IOIns <- InsT3
+  IOOuts <- OutsT3
   Genesis <- Gen1
 VIEW View
 INVARIANTS SupplyEq BalanceWellFormed SupplyWellFormed HolderHasAccount NumsUnique
